@@ -3,6 +3,7 @@ import z3
 
 from pyvc import sym, instrument, vc as vcm
 from pyvc.harness import Unit
+from pyvc import harness as _h
 from pyvc.sym import SB, SI, SR, SC, check, assume, explore
 from checks import init_common as ic, c15
 
@@ -203,13 +204,20 @@ def run_solution_snapshot(mutate=None):
     return dict(obls=obls, paths=n, sources=[L.info()], consistent=True)
 
 
+
+def _bounded_quick():
+    from checks import physics_native as pn
+    return pn.reject_cases(0)
+
+
 def units():
     return [Unit("TDGLSolver.__init__", "tdgl.solver.solver:TDGLSolver.__init__ / validate_terminal_currents", lambda m=None: ic.run_init(m, prefixes=("C19.",)), props=["C19"], timeout=900),
             Unit("SolverOptions.validate", O_ + ":SolverOptions.validate", run_validate, props=["C19"], timeout=300),
             Unit("TDGLSolver.solve[paths]", "tdgl.solver.solver:TDGLSolver.solve", run_solve_paths, props=["C19"], timeout=300),
             Unit("Device.__eq__", "tdgl.device.device:Device.__eq__", run_device_eq, props=["C19"], timeout=300),
             Unit("Device.__init__[rejections]", "tdgl.device.device:Device.__init__", run_device_init, props=["C19"], timeout=300),
-            Unit("Solution.__init__[device snapshot]", SOL_ + ":Solution.__init__", run_solution_snapshot, props=["C19"], timeout=300)]
+            Unit("Solution.__init__[device snapshot]", SOL_ + ":Solution.__init__", run_solution_snapshot, props=["C19"], timeout=300),
+            _h.bounded_unit("ill-posed problems on the real entry points [bounded]", "tdgl.solve / Device / Polygon (real)", "C19", _bounded_quick, "ill_posed_problems_rejected_before_any_output", timeout=900)]
 
 
 def replay_scope(unit, obl):
